@@ -196,7 +196,7 @@ pub fn exec_look(ops: Vec<Op>, probes: Vec<(ATerm, &'static str)>, seed: u64) ->
                     tags.push(t);
                 }
             }
-            let nt = kinds.iter().any(|k| *k == "via-union" || *k == "alpha");
+            let nt = kinds.iter().any(|k| *k == "via-union" || *k == "alpha" || *k == "permuted" || *k == "inner-permuted");
             Case { line, impl_out: outs.join(";"), nontrivial: nt, tags }
         }
         Err(e) => Case { line, impl_out: format!("PANIC {e}"), nontrivial: true, tags: vec!["viol:panic".into()] },
@@ -206,14 +206,53 @@ pub fn exec_look(ops: Vec<Op>, probes: Vec<(ATerm, &'static str)>, seed: u64) ->
 pub fn run(ctx: &mut Ctx) {
     for _ in 0..ctx.count {
         let mut rng = ctx.rng.fork();
-        let (ops, _) = gen_history(&mut rng);
+        // (a tenth of the cases: parents and grandparents inserted after their children's symmetries are complete)
+        let (ops, stream) = if rng.chance(1, 10) { (gen_latesym(&mut rng), "latesym") } else { gen_history(&mut rng) };
         let terms: Vec<ATerm> = ops.iter().filter_map(|o| if let Op::Add(t) = o { Some(t.clone()) } else { None }).collect();
         let unions: Vec<(usize, usize)> = ops.iter().filter_map(|o| if let Op::Union(i, j) = o { Some((*i, *j)) } else { None }).collect();
         let mut probes: Vec<(ATerm, &'static str)> = Vec::new();
+        if stream == "latesym" {
+            // histories about symmetric classes: the terms inserted last, with their own free slots permuted
+            for (n, base) in terms.iter().rev().take(3).enumerate() {
+                // several permuted copies of the term inserted last, one of the two before it
+                let fs = free_slots(base);
+                let mut seen: Vec<Vec<u32>> = vec![fs.clone()];
+                for _ in 0..(if n == 0 { 8 } else { 1 }) {
+                    let mut img = fs.clone();
+                    rng.shuffle(&mut img);
+                    if seen.contains(&img) {
+                        continue;
+                    }
+                    seen.push(img.clone());
+                    let fs2 = fs.clone();
+                    let img2 = img.clone();
+                    probes.push((rename_free(base, &move |c| fs2.iter().position(|x| *x == c).map(|i| img[i]).unwrap_or(c)), "permuted"));
+                    // the same permutation applied to the LAST child only (the rest of the term keeps its names): a different
+                    // term, represented exactly when the permutation is a symmetry of that child
+                    if let Some(last) = base.children.last() {
+                        let fs3 = fs.clone();
+                        let mut t2 = base.clone();
+                        let k = t2.children.len() - 1;
+                        t2.children[k] = rename_free(last, &move |c| fs3.iter().position(|x| *x == c).map(|i| img2[i]).unwrap_or(c));
+                        if t2 != *base {
+                            probes.push((t2, "inner-permuted"));
+                        }
+                    }
+                }
+            }
+        }
         for _ in 0..6 {
             let base = terms[rng.below(terms.len())].clone();
-            let p = match rng.below(6) {
+            let p = match rng.below(7) {
                 0 => (base, "literal"),
+                6 => {
+                    // the term's own free slots permuted: represented whenever the term is
+                    let fs = free_slots(&base);
+                    let mut img = fs.clone();
+                    rng.shuffle(&mut img);
+                    let fs2 = fs.clone();
+                    (rename_free(&base, &move |c| fs2.iter().position(|x| *x == c).map(|i| img[i]).unwrap_or(c)), "permuted")
+                }
                 1 => (alpha_rename(&base, &mut rng), "alpha"),
                 2 => {
                     let fs = free_slots(&base);
@@ -250,6 +289,24 @@ pub fn run(ctx: &mut Ctx) {
                 probes.push(p);
             }
         }
+        // the oracle's universe is closed under the permutations of the name pool: keep history + probes to seven names
+        let mut names: Vec<u32> = Vec::new();
+        for t in &terms {
+            for x in free_slots(t) {
+                if !names.contains(&x) {
+                    names.push(x);
+                }
+            }
+        }
+        probes.retain(|(t, _)| {
+            let extra: Vec<u32> = free_slots(t).into_iter().filter(|x| !names.contains(x)).collect();
+            if names.len() + extra.len() <= 7 {
+                names.extend(extra);
+                true
+            } else {
+                false
+            }
+        });
         let seed = rng.next();
         ctx.emit(exec_look(ops, probes, seed));
     }
